@@ -50,32 +50,49 @@ def rule_gain(repo: Repo, rep: Report) -> int:
 
         it.binop = binop  # type: ignore[assignment]
         it.run({"batch_size": NONE_V, "seq_length": NONE_V, "device": NONE_V})
-        vals = [v for v, r, _ in it.returns if v is not None]
-        if len(vals) != 1:
-            rep.undecided("GAIN", fi, f"{ftype}: coefficient law", f"{len(vals)} returned values")
+        rets_ = [(v, r) for v, r, _ in it.returns if v is not None]
+        if not rets_:
+            rep.undecided("GAIN", fi, f"{ftype}: coefficient law", "no returned value")
             n += 1
             continue
-        v = vals[0]
-        construct = f"{ftype} coefficients: {v.show() if v.kind != 'rician' else 'LOS ' + v.m.show() + ' + scatter var ' + v.var.show()}"
-        if ftype == "rayleigh":
-            if v.kind == "rnd" and v.m == ONE:
-                rep.ok("GAIN", fi, construct, "zero-mean complex Gaussian with Var(re)+Var(im) = 1: unit mean-square gain")
-            elif v.kind == "rnd":
-                rep.violation("GAIN", fi, construct, f"mean-square gain is {v.m.show()} instead of 1")
-            else:
-                rep.undecided("GAIN", fi, construct, f"law not derived ({v.why})")
-            n += 1
-        else:
-            if v.kind != "rician":
-                rep.undecided("GAIN", fi, construct, f"law not derived ({getattr(v, 'why', '')})")
-                n += 1
+        seen_r = set()
+        for v, rnode in rets_:
+            if id(rnode) in seen_r:
                 continue
-            A = Mono.sym("(K+1)")
-            los2 = v.m.pow(2) * A
-            sc = v.var * A
-            rep.check(los2 == K, "GAIN", fi, f"rician |LOS|^2 * (K+1) = {los2.show()}", "line-of-sight power K/(K+1)", f"line-of-sight power times (K+1) must equal K, found {los2.show()}")
-            rep.check(sc == ONE, "GAIN", fi, f"rician Var(scatter) * (K+1) = {sc.show()}", "scattered power 1/(K+1): total gain (K+1)/(K+1) = 1 and LOS/scatter = K", f"scattered power times (K+1) must equal 1, found {sc.show()}")
-            n += 2
+            seen_r.add(id(rnode))
+            from ..astutil import ancestors as _anc, set_parents as _sp
+
+            _sp(fi.node)
+            k0 = any(isinstance(a_, ast.If) and unparse(a_.test) in ("self.k_factor == 0", "self.k_factor == 0.0", "k == 0") and any(rnode is x for b_ in a_.body for x in ast.walk(b_)) for a_ in _anc(rnode))
+            construct = f"{ftype} coefficients (line {rnode.lineno}): {v.show() if v.kind != 'rician' else 'LOS ' + v.m.show() + ' + scatter var ' + v.var.show()}"
+            if ftype == "rayleigh":
+                if v.kind == "rnd" and v.m == ONE:
+                    rep.ok("GAIN", fi, construct, "zero-mean complex Gaussian with Var(re)+Var(im) = 1: unit mean-square gain", node=rnode)
+                elif v.kind == "rnd":
+                    rep.violation("GAIN", fi, construct, f"mean-square gain is {v.m.show()} instead of 1", node=rnode)
+                else:
+                    rep.undecided("GAIN", fi, construct, f"law not derived ({v.why})", node=rnode)
+                n += 1
+            elif v.kind == "rnd":
+                # a path without line-of-sight term: only the K = 0 member of the family, and still unit gain
+                n += 1
+                if not k0:
+                    rep.violation("GAIN", fi, construct, "a Rician path returns a zero-mean coefficient although K may be positive: the line-of-sight power K/(K+1) is missing", node=rnode)
+                elif v.m == ONE:
+                    rep.ok("GAIN", fi, construct + " under K == 0", "K = 0: pure scatter with unit mean-square gain", node=rnode)
+                else:
+                    rep.violation("GAIN", fi, construct + " under K == 0", f"for K = 0 the scattered power must be 1/(K+1) = 1; this path has mean-square gain {v.m.show()}", node=rnode)
+            else:
+                if v.kind != "rician":
+                    rep.undecided("GAIN", fi, construct, f"law not derived ({getattr(v, 'why', '')})", node=rnode)
+                    n += 1
+                    continue
+                A = Mono.sym("(K+1)")
+                los2 = v.m.pow(2) * A
+                sc = v.var * A
+                rep.check(los2 == K, "GAIN", fi, f"rician |LOS|^2 * (K+1) = {los2.show()}", "line-of-sight power K/(K+1)", f"line-of-sight power times (K+1) must equal K, found {los2.show()}", node=rnode)
+                rep.check(sc == ONE, "GAIN", fi, f"rician Var(scatter) * (K+1) = {sc.show()}", "scattered power 1/(K+1): total gain (K+1)/(K+1) = 1 and LOS/scatter = K", f"scattered power times (K+1) must equal 1, found {sc.show()}", node=rnode)
+                n += 2
     # one draw per (item, block)
     draws = [c for c in ast.walk(fi.node) if isinstance(c, ast.Call) and call_name(c) == "torch.randn"]
     for c in draws:
@@ -104,7 +121,6 @@ def rule_expand(repo: Repo, rep: Report) -> int:
         st, d, _ = classify(s.value, ["torch.arange(seq_length, device=device) // self.coherence_time", "torch.arange(seq_length) // self.coherence_time", "torch.div(torch.arange(seq_length, device=device), self.coherence_time, rounding_mode='floor')"])
         rep.add("BLOCKS", fi, f"block_indices = {unparse(s.value)}", st, d or "sample i uses coefficient floor(i / T): constant within each coherence block", node=s)
         n += 1
-    rep.floor("block index definitions", len(bi), 1)
     inl = Inliner(fi, allow_loop_defs=True)
     stores = [s for s in stmts_of(fi.body) if isinstance(s, ast.Assign) and isinstance(s.targets[0], ast.Subscript)]
     if stores:
@@ -120,9 +136,16 @@ def rule_expand(repo: Repo, rep: Report) -> int:
         rets = returns_of(fi.node)
         for r in rets:
             e = inl.inline(r.value)
-            st, d, _ = classify(e, ["h[:, torch.arange(seq_length, device=h.device) // self.coherence_time]", "h[:, torch.arange(seq_length, device=device) // self.coherence_time]"])
+            st, d, _ = classify(e, ["h[:, torch.arange(seq_length, device=h.device) // self.coherence_time]", "h[:, torch.arange(seq_length, device=device) // self.coherence_time]", "torch.repeat_interleave(h, self.coherence_time, dim=1)[:, :seq_length]", "h.repeat_interleave(self.coherence_time, dim=1)[:, :seq_length]", "torch.repeat_interleave(h, self.coherence_time, dim=1)[:, 0:seq_length]"])
+            if st != OK:
+                m_ = match(e, "torch.repeat_interleave(h, self.coherence_time, dim=1)[:, _S]") or match(e, "h.repeat_interleave(self.coherence_time, dim=1)[:, _S]")
+                if m_ is not None and isinstance(m_["_S"], ast.Slice):
+                    sl_ = m_["_S"]
+                    if sl_.lower is not None and unparse(sl_.lower) not in ("0",):
+                        st, d = VIOLATION, f"every coefficient is repeated T times, but the sequence is cut out starting at `{unparse(sl_.lower)}` instead of at 0: when the length is not a multiple of the coherence time the block boundaries are shifted, sample i no longer uses coefficient floor(i / T)"
             rep.add("BLOCKS", fi, f"expansion: {unparse(e)[:120]}", st, d, node=r)
             n += 1
+    rep.floor("block index definitions or vectorised expansion", len(bi) + (0 if stores else 1), 1)
     rets = returns_of(fi.node)
     rep.check(len(rets) == 1 and unparse(rets[0].value) in ("h_expanded",) or not stores, "BLOCKS", fi, f"returns {unparse(rets[0].value) if rets else '?'}", "the expanded coefficients", "expansion result is not returned")
     return n + 1
@@ -174,7 +197,7 @@ def run(repo: Repo, rep: Report, tier: str) -> None:
     n += rule_expand(repo, rep)
     n += rule_forward(repo, rep)
     n += rule_fading_noise(repo, rep)
-    rep.floor("C13 rule instances", n, 22)
+    rep.floor("C13 rule instances", n, 19)
     rep.decided_clauses += [
         "unit mean-square gain for Rayleigh and Rician; Rician LOS/scatter power ratio K",
         "ceil(L/T) blocks, one draw per item and block, expansion by floor(i/T) per batch row",
